@@ -8,19 +8,19 @@ HERE = os.path.dirname(os.path.dirname(os.path.abspath(__file__)))
 # id -> (technique, level text, level note (what is NOT decided / trusted base), design ref)
 T = {
     "C01": ("ownership (alias) dataflow over the clone path + effect summaries + who-may-write, ast/CFG",
-            "Every value stored on a clone (optimizer state, networks, attributes) is shown FRESH by an ownership dataflow on all paths of clone/copy_attributes/EvolvableModule.clone/select; no store into the parent. Structural necessary conditions, exhaustively over all sites.",
+            "Every value stored on a clone (optimizer state, networks, attributes) is shown FRESH by an ownership dataflow on all paths of clone/copy_attributes/EvolvableModule.clone/select; no store into the parent; carried state passes the attribute-name filter; callable helper objects and non-persistent buffers do not escape the copy; hooks run by clone do not re-derive online networks. Structural necessary conditions, exhaustively over all sites.",
             "Not decided: equality of greedy actions/updates (runtime values). Trusted: torch copy semantics listed in evidence; torch Optimizer.load_state_dict summary re-derived from installed source each run."),
     "C02": ("CFG post-dominance / def-use provenance over Mutations + registry cross-check",
-            "Optimizer re-creation post-dominates every parameter replacement in each mutation function; shared networks are rebuilt from the same offspring; critics receive the policy's applied mutation; registry completeness against __init__.",
+            "Optimizer re-creation post-dominates every parameter replacement in each mutation function; shared networks are rebuilt from the same offspring; critics receive the policy's applied mutation; registry completeness against __init__; a mutation reported as None leaves the networks untouched; fallback results of architecture mutations are applied.",
             "Not decided: identity of optimizer params with live tensors at run time; that a learn step moves parameters."),
     "C03": ("guarded-write dominance with comparison direction, constructor->attribute flow (init_dict fidelity), typestate of forwarded mutation methods",
-            "Every architecture write in every @mutation method is dominated by a comparison of that quantity with its own bound in the right direction; init_dict is an identity flow of constructor parameters; recreate contract.",
+            "Every architecture write in every @mutation method is dominated by a comparison of that quantity with its own bound in the right direction; init_dict is an identity flow of constructor parameters; recreate contract; __init__ and the rebuild call the builders with the same keywords, values and layer-size formulas; validators accept numpy integers; forwarded mutation wrappers are re-installed when a sub-module is replaced.",
             "Not decided: finiteness/shape of outputs; exhaustive architecture walks."),
     "C04": ("slice/argument-role normal forms over preserve functions and all recreate sites",
-            "The common index range is copied with the same index on both sides, old->new, at every recreate site; clone overrides are complete.",
+            "The common index range is copied with the same index on both sides, old->new, at every recreate site; buffers and train/eval mode are carried over; head build and rebuild agree; the live description is used; live weights are never re-initialised by a rebuild; clone overrides are complete.",
             "Not decided: output equality after a no-op mutation."),
     "C05": ("finite ordering algebra (argsort/argmax/[-1]) + linear path counts + effect summaries",
-            "Elite index evaluates to Idx(best) of the mean of the last eval_loop scores; winner is best-ranked of the drawn; population size by path count; fresh indices.",
+            "Elite index evaluates to Idx(best) of the mean of the last eval_loop scores; winner is best-ranked of the drawn; population size by path count; fresh indices, applied by clone() after the attribute copy and forwarded by the agent wrapper; all C01 obligations for the copies.",
             "Not decided: faithfulness of each copy (C01); tie behaviour beyond one of the maxima."),
     "C06": ("term normal form + clip recogniser + ownership + registry multiplicity",
             "RLParameter.mutate is value*factor clipped and cast; the base value is re-read from the individual; every optimizer registered for a mutated lr is rebuilt (or every parameter group updated); optimizers of multi-lr algorithms are registered under the lr named at their construction site.",
@@ -29,7 +29,7 @@ T = {
             "Every checkpoint key read by both loaders is written by the writer; rebuild->load->optimizers order; weight-copying hooks vs load order; nothing rewrites restored optimizer state or attributes afterwards (hook write-sets); carried counters pass inspect_attributes' name filter; change_activation siblings update init_dict; parameter snapshots are detached.",
             "Not decided: equality of later learning trajectories."),
     "C08": ("polynomial normal form of the loss target over origin-tagged atoms (def-use, interprocedural parameter binding), done-substitution masking check, soft-update identity, typestate for parameterless modules, CFG post-dominance",
-            "For 7 learners: target = reward + gamma^k*Q_shared(next) at done=0 and loses every next_obs term at done=1 (polynomial substitution); shared calls under no_grad; soft update identical to tau*e+(1-tau)*t, paired with the registry, non-vacuous, on every learn path.",
+            "For 7 learners: target = reward + gamma^k*Q_shared(next) at done=0 and loses every next_obs term at done=1 (polynomial substitution); shared calls under no_grad; soft update identical to tau*e+(1-tau)*t, paired with the registry, non-vacuous, on every learn path, after the optimizer step; the selecting network of double-Q reads the next state; target networks own their tensors (deep clone, no assign=True).",
             "Not decided: numeric loss / weights. Trusted: copy_ in place; parameters() lists registered Parameters only."),
     "C09": ("linear-integer slice arithmetic, ownership of sampled batches, reset completeness",
             "Slice lengths of the wrap-around write agree; cursor/size update forms; sample domain from fill level; batches are copies; clear() resets every field add() advances.",
@@ -41,31 +41,31 @@ T = {
             "Ancestors recomputed to the root; both trees written together with priority**alpha; weight formula normal form; pointer modulus agreement.",
             "Not decided: index < size at floating-point boundaries; sampling frequencies."),
     "C12": ("reaching definitions / dead stores in the worker, sibling agreement of shared-memory branches, per-agent reset condition",
-            "The reset's observation reaches the shared-memory publisher; placeholders are stored; reset condition combines termination and truncation per agent.",
+            "The reset's observation reaches the shared-memory publisher; placeholders are stored; reset condition combines termination and truncation per agent; a seed is tested against None only; one fresh info-mask array per key.",
             "Not decided: equality with N independent environments for every interleaving."),
     "C13": ("typestate (AsyncState) on a CFG with exceptional edges",
-            "Guards dominate pipe I/O in every *_async/*_wait; every exit (including exceptional) of *_wait restores DEFAULT; error transport and close paths.",
+            "Guards dominate pipe I/O in every *_async/*_wait; every exit (including exceptional) of *_wait restores DEFAULT; error transport and close paths; receive loops visit every pipe; the timeout handler catches the type the waits raise.",
             "Not decided: wall-clock bounds; process liveness. may-raise = calls, subscripts, raise."),
     "C14": ("def-use from mask to argmax with polarity, bound-rank lint, array-kind propagation",
-            "On every masked path the arg-max operand passed the mask; continuous clip bounds are not projected to one dimension; batch sizes are read from a tensor leaf of dict/tuple observations; IPPO group masks are combined agent-major.",
+            "On every masked path the arg-max operand passed the mask; continuous clip bounds are not projected to one dimension; batch sizes are read from a tensor leaf of dict/tuple observations; IPPO group masks are combined agent-major; the clip space is looked up by agent id; the returned action keeps its axes.",
             "Not decided: batch shape; best allowed action as a value."),
     "C15": ("dispatch exhaustiveness / sibling agreement over space kinds, rank-arithmetic lint, term normal form of image scaling",
             "The six dispatchers cover the same closed set of space kinds or raise; rank comparisons are well-typed; scaling is (x-low)/(high-low); container recursion passes member, sub-space, device and flag; the preparation path is pure (no in-place writes to the input); agents are visited in agent_ids order.",
             "Not decided: row-by-row equality; batch independence of actions."),
     "C16": ("handler-table agreement, parameter-dependence (def-use) of log_prob, reduction axes, squash correction pairing",
-            "log_prob's density argument depends on the passed action on every path; reductions over the component axis; squash correction iff squash_output.",
+            "log_prob's density argument depends on the passed action on every path; reductions over the component axis; squash correction iff squash_output; the action axis of single-component spaces is restored before log_prob; the distribution wrapper is re-created with the constructor's keywords; masks are used as given.",
             "Not decided: that the number equals the density (torch.distributions semantics)."),
     "C17": ("term normal form with loop-carried Rec atoms, done-substitution masking, axis-order signatures of the flattened rollout",
-            "GAE recursion matches delta/A definitions; next-step terms vanish at done=1; the six minibatch tensors share one flattening signature.",
+            "GAE recursion matches delta/A definitions; next-step terms vanish at done=1; the six minibatch tensors share one flattening signature; experience components are grouped in agent_ids order with per-field stacking axes; every preparation call passes the normalisation flag.",
             "Not decided: numeric agreement with the definition."),
     "C18": ("term normal form of t_z / b / neighbour weights, index-weight pairing, bounded-index typestate",
-            "t_z form and clamp before b; complementary neighbour weights; fix-up order; offsets stride num_atoms; index clamp before index_add_.",
+            "t_z form and clamp before b; complementary neighbour weights; fix-up order; offsets stride num_atoms; index clamp before index_add_; batch coherence and update ordering shared from C08.",
             "Not decided: mass/mean conservation as numeric facts."),
     "C19": ("ordered-product normal form of the Sherman-Morrison update, sibling agreement UCB/TS, hook registration",
-            "S <- S - (S v v^T S)/(1 + v^T S v) with v the chosen arm's feature; init lambda*I(numel of output layer); re-init after mutation.",
+            "S <- S - (S v v^T S)/(1 + v^T S v) with v the chosen arm's feature; init lambda*I(numel of output layer); init I/lambda (numel of output layer); re-init after mutation; nothing rescales the feature matrix between the gradient loop and the update; clones own the matrix (C01.3 shared).",
             "Not decided: positive definiteness, numerical drift."),
-    "C20": ("producer/consumer agreement sampler->learn, CFG step counters, Protocol-isinstance rule, sibling cross-check rollout vs test()",
-            "Batch structure accepted by every reachable learn(); one counter increment per env.step; fitness appended once per test(); population = mutation(select(pop)).",
+    "C20": ("producer/consumer agreement sampler->learn, CFG step counters, Protocol-isinstance rule, sibling cross-check rollout vs test(), channel-order typestate (forward may-analysis specialised on swap_channels), guard/operand agreement",
+            "Batch structure accepted by every reachable learn(); one counter increment per env.step; fitness appended once per test(); population = mutation(select(pop)) with the C05 obligations on size, indices and elite; sampled indices are requested where they are read; every observation is converted to channels-first exactly once; stacks over filtered lists are guarded by that list; score arrays and the rewards added agree on their ids.",
             "Not decided: running to completion on real environments."),
 }
 
